@@ -919,7 +919,7 @@ var wantProbes = map[string][]string{
 	"C05": {"pool_reuse_other_task", "pool_miss", "open_events_overlap", "pool_non_lifo", "late_update_context"},
 	"C13": {"linearizable_histories", "clock_backwards", "clock_jump_forward", "clock_frozen", "sampling_disabled_phase", "level_rejected_event"},
 	"C14": {"dst_error", "dst_short_write", "sync_wrapped_destination", "sync_wrapped_fanout"},
-	"C15": {"linearizable_histories", "mutex_contended", "pool_reuse", "dst_blocks"},
+	"C15": {"linearizable_histories", "mutex_contended", "pool_reuse", "dst_blocks", "dst_error", "huge_line"},
 	"C17": {"crash_point", "bit_flip", "header_overwrite", "huge_length", "zeroed_range", "dropped_range", "duplicated_tail", "garbage_tail", "read_error"},
 	"C18": {"handler_panics", "base_context_logger", "rw_short_write", "rw_error", "rw_partial_then_error", "pool_reuse_other_task"},
 	"C06": {"package_level_helpers", "sink_closed", "derived_in_task", "sink_short_write", "hook_discards_event", "pool_reuse_other_task", "pool_miss", "pool_drop", "sink_overlap", "two_events_open", "sink_blocks_in_write", "sink_error", "global_level_flip", "mutex_contended"},
